@@ -37,5 +37,7 @@ if __name__ == '__main__':
             print('%-8s %s  (line %d) %s' % (ob.result['status'].upper(), ob.name, ob.line, ob.meta or ''))
             if ob.result.get('model') and '-v' in sys.argv:
                 print('     ', {k: v for k, v in list(ob.result['model'].items())[:40]})
+    for ob in sorted(eng.obls, key=lambda o: -o.result['time'])[:6]:
+        print('   slow %.1fs %s [%s]' % (ob.result['time'], ob.name, ob.result['backend']))
     print('%d obligations (%d covers), %d not as expected; gen %.2fs solve %.2fs; unsupported: %s' % (
         len(eng.obls), sum(o.kind == 'cover' for o in eng.obls), bad, gen, sol, eng.unsupported[:10]))
